@@ -329,7 +329,7 @@ static int ex_region(char *loc, int *beg, int *end)
 	if (!*loc) {
 		*beg = xrow;
 		*end = xrow == lbuf_len(xb) ? xrow : xrow + 1;
-		return 0;
+		return xrow < 0 || xrow > lbuf_len(xb);
 	}
 	while (*loc) {
 		int end0 = *end;
